@@ -230,6 +230,49 @@ static std::vector<uint8_t> make_data0(const Json &spec)
                 putr((p & 4) ? r.below(3000) : 700);
                 return d;
         }
+        if (kind == DK_DISTSKEW) {
+                // A block whose *distance* alphabet is as skewed as the code-length limit allows: 16-20 distance symbols whose match counts
+                // grow by a factor of 1.62-1.9 from one to the next (Fibonacci-like or steeper), so that the unrestricted distance tree is
+                // 15 or more levels deep - 15-bit distance codes, and the length-limiting pass, which ordinary data never gets near
+                // (longest distance codes there: 5-10 bits).  Each unit is one planned match: L bytes copied from exactly D back, then one
+                // byte that breaks it.  Sizes itself (40-300 KB); needs one large block to show (a roomy level buffer, no flush).
+                static const uint32_t lo[30] = { 1,   2,   3,   4,   5,    7,    9,    13,   17,   25,   33,   49,   65,    97,    129,
+                                                 193, 257, 385, 513, 769,  1025, 1537, 2049, 3073, 4097, 6145, 8193, 12289, 16385, 24577 };
+                int nsym = 16 + (int) r.below(5), first = 3 + (int) r.below(20 - nsym + 4); // symbols first .. first+nsym-1, distances 4 .. ~1500
+                double ratio = 1.62 + (double) r.below(29) / 100.0, c = 1.0;
+                std::vector<int> order(nsym);
+                for (int i = 0; i < nsym; i++)
+                        order[i] = i;
+                if (p & 1)
+                        for (int i = nsym; i > 1; i--)
+                                std::swap(order[i - 1], order[r.below(i)]);
+                std::vector<uint8_t> d;
+                for (int i = 0; i < nsym; i++) {
+                        int sym = first + order[i];
+                        uint32_t hi = sym == 29 ? 32768 : lo[sym + 1] - 1, D = lo[sym] + (uint32_t) r.below(hi - lo[sym] + 1);
+                        if (D < 4)
+                                D = 4;
+                        uint64_t count = (uint64_t) c;
+                        c *= ratio;
+                        if (d.size() + count * 10 > 300000)
+                                count = (300000 - std::min<size_t>(d.size(), 300000)) / 10;
+                        for (uint32_t j = 0; j < D; j++)
+                                d.push_back((uint8_t) r.u64());
+                        for (uint64_t u = 0; u < count; u++) {
+                                int L = (p & 2) ? 4 + (int) r.below(5) : 8;
+                                for (int j = 0; j < L; j++)
+                                        d.push_back(d[d.size() - D]);
+                                uint8_t sep;
+                                do
+                                        sep = (uint8_t) r.u64();
+                                while (sep == d[d.size() - D]);
+                                d.push_back(sep);
+                        }
+                }
+                for (int i = 0; i < 64; i++)
+                        d.push_back((uint8_t) r.u64());
+                return d;
+        }
         if (kind == DK_LITCOPY) // sizes itself: one block of literals, the copies, a short tail
                 n = (p & 1) ? 80000 + r.below(30000) : 44000 + r.below(16000);
         if (kind == DK_RARE && n < 12000) // the stretches' codes are only long in a block with thousands of other literals
